@@ -195,14 +195,14 @@ def main():
         "setup_cmd": "./setup.sh",
         "hooks": {
             "guard": "verif",
-            "enable": "no hook commit in /repo: harness files under /verif/harness (all carrying //go:build verif) are compiled into the repository's packages with `go build -tags verif -overlay <generated>` run in /repo; the E3 flavour additionally overlays mechanically rewritten copies of internal/pfcp and internal/forwarder/perio generated at check time from the working tree",
+            "enable": "no hook commit in /repo: harness files under /verif/harness (all carrying //go:build verif) are compiled into the repository's packages with `go build -tags verif -overlay <generated>` run in /repo; every flavour additionally overlays mechanically rewritten copies generated at check time from the working tree (tools/rewrite): in all flavours the range-over-map statements of the repository's packages iterate in a harness-chosen order (-maponly); in the E3 flavours the channel / timer / go constructs of internal/pfcp and internal/forwarder/perio are also routed through the scheduler",
             "baseline_off_cmd": "for m in $(cat /w/out/gomods.txt); do MF=$(cd /repo/$m && . /w/out/goenv.sh && gomodflag); (cd /repo/$m && go test $MF -json -vet=off -count=1 -timeout 25m ./...); done",
             "source_commits": [],
             "add_only": True,
         },
         "engines": [
             {"name": E1, "path": "harness/internal/verif/seqx", "serves_properties": sorted(k for k, c in CHECKS.items() if c["engine"] == E1),
-             "kind_free_text": "explicit-state breadth-first search over event histories of the real PfcpServer event loop (replay from scratch on a fresh server per successor, canonical state key, reference model + oracle on every transition, worker processes)"},
+             "kind_free_text": "explicit-state breadth-first search over event histories of the real PfcpServer event loop (replay from scratch on a fresh server per successor, canonical state key, reference model + oracle on every transition, worker processes; map iteration order inside the implementation is owned by the harness and enumerated: each scenario is explored with ascending and, as <scenario>@desc, with descending key order)"},
             {"name": E2, "path": "harness/internal/verif", "serves_properties": sorted(k for k, c in CHECKS.items() if c["engine"] == E2),
              "kind_free_text": "bounded-exhaustive enumeration of input shapes through the real translation/codec functions, decoded by independent reference decoders"},
             {"name": E3, "path": "harness/internal/verif/vsched", "serves_properties": sorted(set(k for k, c in CHECKS.items() if c["engine"] == E3) | {"C15"}),
